@@ -390,6 +390,17 @@ CGraph::UnorderedItems CGraph::ExpandInputs'''),
       continue;
     }
     if (!IsBaseSet(type)) {'''),
+ ('ccl/core/src/oss/OSSchema.cpp', 'Erase: independent table erasers in another order (all before the storage entry)', '''    graph->Erase(target);
+    grid->Erase(target);
+    sources->Erase(target);
+    ops->Erase(target);''', '''    grid->Erase(target);
+    ops->Erase(target);
+    graph->Erase(target);
+    sources->Erase(target);'''),
+ ('ccl/rslang/src/ASTInterpreter.cpp', 'ViRecursion: fixed-point test through a named flag', '''  } while (idsData[varID] != current);''', '''    if (idsData[varID] == current) {
+      break;
+    }
+  } while (true);'''),
 ]
 
 
